@@ -327,6 +327,10 @@ where
         let mut conn = self.inner.connection().await?;
 
         let is_connected = conn.test_connected().await;
+        #[cfg(lettre_verif)]
+        if !is_connected {
+            crate::verif_hooks::pool_probe("test_fail", conn.server_info().name());
+        }
 
         #[cfg(not(feature = "pool"))]
         conn.quit().await?;
